@@ -1404,7 +1404,8 @@ protected:
   }
 
   /// \brief Find the end of a chunked request body. Returns npos when more data is
-  /// needed, or, with \p invalidChunkSize set, when a chunk-size line is malformed.
+  /// needed, or, with \p invalidChunkSize set, when a chunk-size line is malformed
+  /// or chunk data is not terminated by CRLF.
   std::size_t findChunkedRequestEnd(const std::string &data, std::size_t bodyStart,
                                     bool &invalidChunkSize) const
   {
@@ -1456,6 +1457,14 @@ protected:
       if (chunkSize > remaining || remaining - chunkSize < 2)
       {
         return std::string::npos; // Need more data
+      }
+      // chunk-data is followed by CRLF (RFC 9112 §7.1); both bytes are inside the
+      // buffer (checked above). Anything else is malformed framing, reported like
+      // a malformed chunk-size line.
+      if (data[pos + chunkSize] != '\r' || data[pos + chunkSize + 1] != '\n')
+      {
+        invalidChunkSize = true;
+        return std::string::npos;
       }
       pos += chunkSize + 2;
     }
